@@ -47,9 +47,16 @@ Definition serve_paths (t : ftree) (req : list Z) : list path :=
   | Some sub => p0 :: select [] (depth sub) (rev p0) sub
   end.
 
-(** the names on the wire *)
+(** the names on the wire (walkFn): the strip prefix is cut off; the directory
+    whose contents were requested (its path followed by a slash *is* the
+    prefix) is named "." *)
+Definition wire_name (strip : list Z) (p : path) : list Z :=
+  match strip with
+  | [] => render p
+  | s => if list_eqb (render p ++ [slash]) s then [dot] else trim_prefix s (render p)
+  end.
 Definition serve_names (t : ftree) (req : list Z) : list (list Z) :=
-  map (fun p => match get_strip req with [] => render p | s => trim_prefix s (render p) end) (serve_paths t req).
+  map (wire_name (get_strip req)) (serve_paths t req).
 
 (** a daemon request: module prefix stripped from every path argument *)
 Definition daemon_serve (mname : list Z) (t : ftree) (reqs : list (list Z)) : list (list Z) :=
